@@ -5,6 +5,9 @@ line protocol for C06 (stateful).
   doc <id> <val>                      the stored document of node <id> (a map), syntax below
   kinds                               → the model's reflect.Kind table (validated against Go's on every run)
   fadd <hex8> <hex8>                  → float32 sum (validates the driver's addition against Go's)
+  hyb <text|flat|vamana> <weight hex8|-> <value hex8>
+                                      → hex8: the leaf hybrid expression generated from the index's source (LeafHybrid.lean),
+                                        evaluated with hardware float32 on the leaf's real score / distance (bit for bit)
   cmp <val> <val>                     → cmpAny
   search tree=<T> select=<-|p,p,…> sort=<-|p:a,p:d,…> off=<int> lim=<int> variant=<pinned|repaired> pick=<-|id,id,…> [req=…]
 
@@ -20,6 +23,7 @@ of an unstable sort); the driver re-checks that what it prints is a sorted permu
 import SemaModel.Base.DriverUtil
 import SemaModel.Base.Float
 import SemaModel.C06.Model
+import SemaModel.C06.LeafHybrid
 namespace Sema.C06
 open Sema
 
@@ -245,6 +249,13 @@ def step (st : St) (line : String) : St × String :=
   match ws with
   | ["new"] => ({}, "ok")
   | ["kinds"] => (st, kindsLine)
+  | ["hyb", kind, w, x] =>
+    let k? : Option LeafKind := if kind == "text" then some .text else if kind == "flat" then some .flat else if kind == "vamana" then some .vamana else none
+    match k?, (if w == "-" then some none else (natOfHex w).map some), natOfHex x with
+    | some k, some w, some x =>
+      let r := (leafHybrid k (w.map fun b => Go.FExpr.var (BitVec.ofNat 32 b)) (Go.FExpr.var (BitVec.ofNat 32 x))).eval
+      (st, hexOfNat 8 r.toBits.toNat)
+    | _, _, _ => (st, "bad-op")
   | ["fadd", a, b] =>
     match natOfHex a, natOfHex b with
     | some x, some y => (st, hexOfNat 8 (fadd x y))
